@@ -250,6 +250,7 @@ def run(ctx):
     box = {}
 
     def body():
+        threading.stack_size(192 * 1024 * 1024)     # for the worker threads started from here
         try:
             box["r"] = _run(ctx)
         except BaseException as e:
